@@ -17,4 +17,9 @@ TEXTS = {
         "level_text": "Exploration: every parsed message of >10^6 generated streams is written, re-read and re-written; bytes are additionally decoded by the independent reference decoder.",
         "level_note": "htyp version bits / original len are outside the statement; binary-level `adlt convert -o` round trip is part of C14",
     },
+    "C04": {
+        "technique": T + "differential oracle over scripted short-read schedules and suffix positions (same real code, different chunking) + reference-model (data,pos) monitor of every fill_buf/consume/read/seek of LowMarkBufReader",
+        "level_text": "Exploration: tens of thousands of >70 KB streams per quick run parsed under adversarial read schedules and compared message-by-message with the whole-buffer parse; millions of reader operations checked against a two-variable model.",
+        "level_note": "schedules and histories are sampled; the whole-buffer run is anchored to the generator truth for marker-free streams",
+    },
 }
